@@ -19,8 +19,16 @@ EXPLANATION = (
     "component that reads objective values sees an unevaluated population; (R4) the DE mutation's population-format "
     "guard is evaluated over all (length mod size) classes and must reject exactly the malformed ones, and integer "
     "bitwise-NOT does not occur in component code; (R5) K4: no dynamic-borrow conflict anywhere in crate code; (R6) the "
-    "recombination driver conserves the prescribed number of individuals for every parent count and pair outcome. NOT "
-    "decided: termination and iteration counts for all seeds, population-size bounds, data-dependent errors.")
+    "recombination driver conserves the prescribed number of individuals for every parent count and pair outcome; (R7) "
+    "no scenario of the operator tables of C11-C14 / C17-C20 panics, diverges or errs on valid input; (R8) every state "
+    "type that mentions a component's own type is read under the component's own instantiation; (R9) the two-reactant "
+    "CRO updates treat molecules holding equal individuals as distinct; (R10) template constructors accept the "
+    "parameter sets their documentation declares valid; (R11, bounded program semantics of C03 on the MIR of "
+    "Configuration::run) the ILS shape `init; while { perturb; scope { while { step } }; replace }` and the single-loop "
+    "shape of all other templates perform exactly the scripted number of passes (0-3 outer x 0-2 inner): the loop "
+    "nested in the scope counts in its own counter and the outer counter is untouched by it; K17 constructor fidelity. "
+    "NOT decided: termination and iteration counts for all seeds as numbers, population-size bounds beyond the "
+    "recombination driver, data-dependent errors of user problems.")
 ASSUMPTIONS = ["parameters accepted by the constructors are valid (constructor Err paths are not analysed)",
                "conditions do not touch the population stack"]
 USES_FIXTURES = True
